@@ -549,6 +549,58 @@ def run_setters(case, ctx):
         ctx.nontrivial()
 
 
+
+# members of an aggregate that change after they joined it ------------------
+MEMBER_TYPES = ["UI", "I", "CONNECT", "CC", "SNL", "DM", "RR"]
+
+
+@st.composite
+def agf_member_case(draw):
+    ts = draw(st.lists(st.sampled_from(MEMBER_TYPES), min_size=1, max_size=4))
+    members = [{"type": t, "init": draw(_SET_INIT[t])} for t in ts]
+    ops = []
+    for _ in range(draw(st.integers(1, 4))):
+        i = draw(st.integers(0, len(ts) - 1))
+        attr, val = draw(_SET_OPS[ts[i]])
+        ops.append([i, attr, val])
+    return {"members": members, "ops": ops,
+            "how": draw(st.sampled_from(["ctor", "append", "decoded"]))}
+
+
+def run_agf_members(case, ctx):
+    """an aggregate is what its members are when it is encoded or measured,
+    however and whenever they got their values"""
+    ctx.set_class("agf-members/" + case["how"])
+    models = [norm(m["init"]) for m in case["members"]]
+    if case["how"] == "ctor":
+        objs = [build(m["init"]) for m in case["members"]]
+        agf = pdu.AggregatedFrame(0, 0, objs)
+    elif case["how"] == "append":
+        objs = [build(m["init"]) for m in case["members"]]
+        agf = pdu.AggregatedFrame(0, 0)
+        for o in objs:
+            agf.append(o)
+    else:
+        agf = pdu.decode(ref.encode({"type": "AGF", "dsap": 0, "ssap": 0,
+                                     "pdus": models}))
+        objs = list(agf)
+    model = {"type": "AGF", "dsap": 0, "ssap": 0, "pdus": models}
+    check_object(agf, norm(model), "AGF as built (%s)" % case["how"])
+    changed = False
+    for i, attr, val in case["ops"]:
+        before = dict(models[i])
+        _assign(objs[i], models[i], attr, val)
+        models[i] = norm(models[i])
+        changed = changed or models[i] != before
+        want = norm({"type": "AGF", "dsap": 0, "ssap": 0, "pdus": models})
+        if any(None in (m.get("ns", 0), m.get("nr", 0)) for m in models):
+            continue
+        check_object(agf, want, "AGF (%s) after member %d (%s) %s=%r"
+                     % (case["how"], i, models[i]["type"], attr, val))
+    if changed:
+        ctx.nontrivial()
+
+
 # mutation based byte strings ------------------------------------------------
 def _mutations():
     return st.lists(st.tuples(st.sampled_from(
@@ -1092,6 +1144,15 @@ LEGS = [
              "field ranges (RW 0..15, MIU 128..2175, SAP 0..63, names <=255 B, "
              "AGF of up to 20 PDUs); non-trivial = carries an optional TLV, a "
              "payload or sequence/reason fields; distinct by case hash."),
+    Leg("agf-members", run=run_agf_members,
+        gen=lambda tier: agf_member_case(), quick=1500, thorough=40000,
+        shards_quick=4, shards_thorough=16, nt_floor=0.3,
+        rule="an aggregate of 1..4 PDUs (UI, I, CONNECT, CC, SNL, DM, RR) "
+             "built through the constructor list, append() or decode(); then "
+             "1..4 attribute assignments on MEMBER objects it holds; after "
+             "each the aggregate's length, encoding and round trip are those "
+             "of the members' present values (reference encoding); "
+             "non-trivial = an assignment changed a member's value."),
     Leg("setters", run=run_setters, gen=lambda tier: setter_case(),
         quick=3000, thorough=150000, shards_quick=4, shards_thorough=16,
         nt_floor=0.4,
